@@ -86,6 +86,10 @@ class Fn:
         self.has_nan = any(isinstance(n, ast.Return) and n.value is not None and dotted(n.value) in ("np.nan", "numpy.nan", "math.nan")
                            for n in ast.walk(fdef))
         self.ret = None
+        self.vecs = {}                   # local names bound to element-wise expressions (substituted where used)
+        self.module_defs = self.opts.get("module_defs") or {}
+        self.depth = self.opts.get("depth", 0)
+        self.tmp = 0
 
     # ---- expressions: return (lean, type); vec values are ("vec", base, body) with body a term in the bound variable x
     def is_identity(self, node, var=None):
@@ -103,6 +107,8 @@ class Fn:
 
     def expr(self, e):
         if isinstance(e, ast.Name):
+            if e.id in self.vecs:
+                return self.vecs[e.id], "vec"
             if e.id not in self.env:
                 raise Untranslatable(f"unknown name {e.id}")
             t = self.env[e.id]
@@ -118,6 +124,8 @@ class Fn:
             return f"(-{self.as_rat(v, t)})", "rat"
         if isinstance(e, ast.UnaryOp) and isinstance(e.op, ast.Not):
             v, t = self.expr(e.operand)
+            if t in ("set", "coll"):
+                return f"(({v}).length = 0)", "prop"          # truth value of a collection: non-empty
             if t != "prop":
                 raise Untranslatable("not of a non-condition")
             return f"(¬ {v})", "prop"
@@ -186,6 +194,8 @@ class Fn:
             if ta == "vec":
                 return ("vec", a[1], f"({a[2]} ^ {b[2]})"), "vec"
             return f"({self.as_rat(a, ta)} ^ {b[2]})", "rat"
+        if isinstance(e.op, (ast.BitAnd, ast.BitOr)) and ta == "set" and tb == "set":
+            return (f"({a}.filter fun y => decide (y ∈ {b}))" if isinstance(e.op, ast.BitAnd) else f"(dedup ({a} ++ {b}))"), "set"
         op = {ast.Add: "+", ast.Sub: "-", ast.Mult: "*", ast.Div: "/"}.get(type(e.op))
         if op is None:
             raise Untranslatable("arithmetic operator")
@@ -250,7 +260,81 @@ class Fn:
             if e.func.attr == "intersection":
                 return f"({a}.filter fun y => decide (y ∈ {b}))", "set"
             return f"(dedup ({a} ++ {b}))", "set"
+        if isinstance(e.func, ast.Name) and e.func.id in self.module_defs and self.depth < 3:
+            return self.inline_helper(self.module_defs[e.func.id], args)
         raise Untranslatable(f"call {name or ast.dump(e.func)[:40]}")
+
+    @staticmethod
+    def straight_line(fdef):
+        body = [b for b in fdef.body if not (isinstance(b, ast.Expr) and isinstance(b.value, ast.Constant))]
+        return bool(body) and isinstance(body[-1], ast.Return) and sum(isinstance(n, ast.Return) for n in ast.walk(fdef)) == 1 and len(body) > 1
+
+    def inline_statements(self, fdef, args, target):
+        """`t = helper(a, b)` / `t1, t2 = helper(a, b)` for a helper that is statements + ONE final return: the helper's statements with
+        its names made unique, then the targets bound to the returned value(s)"""
+        import copy
+        a = fdef.args
+        body = [b for b in fdef.body if not (isinstance(b, ast.Expr) and isinstance(b.value, ast.Constant))]
+        if a.vararg or a.kwarg or a.kwonlyargs or a.posonlyargs or len(args) != len(a.args) or not body or not isinstance(body[-1], ast.Return) \
+                or sum(isinstance(n, ast.Return) for n in ast.walk(fdef)) != 1:
+            return None
+        self.tmp += 1
+        sfx = f"_h{self.tmp}"
+        local = {p.arg for p in a.args} | {n.id for b in body for n in ast.walk(b) if isinstance(n, ast.Name) and isinstance(n.ctx, ast.Store)}
+
+        class Ren(ast.NodeTransformer):
+            def visit_Name(self, node):
+                return ast.copy_location(ast.Name(id=node.id + sfx, ctx=node.ctx), node) if node.id in local else node
+        stmts = [ast.Assign(targets=[ast.Name(id=p.arg + sfx, ctx=ast.Store())], value=arg) for p, arg in zip(a.args, args)]
+        stmts += [Ren().visit(copy.deepcopy(b)) for b in body[:-1]]
+        rv = Ren().visit(copy.deepcopy(body[-1].value))
+        stmts.append(ast.Assign(targets=[target], value=rv))
+        for st_ in stmts:
+            ast.fix_missing_locations(st_)
+        return stmts
+
+    def inline_helper(self, fdef, args):
+        """a call of a module-level helper: its body, translated in place with the parameters bound to the arguments"""
+        a = fdef.args
+        if a.vararg or a.kwarg or a.kwonlyargs or a.posonlyargs or len(args) > len(a.args):
+            raise Untranslatable(f"call of {fdef.name}: parameter form")
+        nodes = list(args) + list(a.defaults)[len(a.defaults) - (len(a.args) - len(args)):] if len(args) < len(a.args) else list(args)
+        if len(nodes) != len(a.args):
+            raise Untranslatable(f"call of {fdef.name}: missing arguments")
+        ptypes, lets, vecs = {}, [], {}
+        for prm, node in zip(a.args, nodes):
+            v, t = self.expr(node)
+            if t == "vec":
+                ptypes[prm.arg] = "vec"
+                if v[2] != "x" or not v[1].isidentifier() or v[1] != prm.arg:
+                    vecs[prm.arg] = v
+            elif t in ("set", "coll"):
+                self.tmp += 1
+                ptypes[prm.arg] = t
+                lets.append(f"let {prm.arg} := {v}")
+            elif t in ("rat", "const", "nat"):
+                ptypes[prm.arg] = "rat" if t != "nat" else "nat"
+                lets.append(f"let {prm.arg} := {self.as_rat(v, t) if t != 'nat' else v}")
+            else:
+                raise Untranslatable(f"call of {fdef.name}: argument of type {t}")
+        sub = Fn(fdef, ptypes, dict(self.opts, module_defs=self.module_defs, depth=self.depth + 1) if self.real else None)
+        if not self.real:
+            sub.opts = {"module_defs": self.module_defs, "depth": self.depth + 1}
+            sub.module_defs, sub.depth = self.module_defs, self.depth + 1
+        sub.static, sub.externals = {}, []
+        sub.vecs = dict(vecs)
+        for k_, v_ in vecs.items():
+            sub.env.pop(k_, None)
+        if sub.has_nan:
+            raise Untranslatable(f"call of {fdef.name}: a helper that can return nan")
+        body = sub.block(list(fdef.body), 0)
+        if sub.externals:
+            raise Untranslatable(f"call of {fdef.name}: random draws inside a helper")
+        term = "(" + "\n".join(lets + [body.strip()]) + ")"
+        rt = {"Rat": "rat", "Nat": "nat", "Prop": "prop", "List Rat": None, None: "rat"}[sub.ret]
+        if rt is None:
+            raise Untranslatable(f"call of {fdef.name}: vector-valued helper")
+        return term, rt
 
     # ---- statements
     def ret_term(self, e):
@@ -262,6 +346,9 @@ class Fn:
             return self.vec_term(v)
         if t == "nat" and not self.has_nan:
             self.note_ret("Nat")
+            return v
+        if t == "prop" and not self.has_nan:
+            self.note_ret("Prop")
             return v
         self.note_ret("Rat")
         r = self.as_rat(v, t)
@@ -283,26 +370,65 @@ class Fn:
             if s.value is None:
                 raise Untranslatable("bare return")
             return pad + self.ret_term(s.value)
+        if isinstance(s, ast.Assign) and len(s.targets) == 1 and isinstance(s.targets[0], ast.Tuple) and isinstance(s.value, ast.Tuple) \
+                and len(s.targets[0].elts) == len(s.value.elts) and all(isinstance(x, ast.Name) for x in s.targets[0].elts):
+            # `a, b = e1, e2`: both right-hand sides are evaluated before either name is bound
+            tmps = []
+            for x in s.value.elts:
+                self.tmp += 1
+                tmps.append(ast.Name(id=f"tmp{self.tmp}_", ctx=ast.Load()))
+            first = [ast.Assign(targets=[ast.Name(id=t_.id, ctx=ast.Store())], value=v_) for t_, v_ in zip(tmps, s.value.elts)]
+            second = [ast.Assign(targets=[ast.Name(id=x.id, ctx=ast.Store())], value=t_) for x, t_ in zip(s.targets[0].elts, tmps)]
+            return self.block(first + second + rest, ind)
+        if isinstance(s, ast.Assign) and len(s.targets) == 1 and isinstance(s.value, ast.Call) and isinstance(s.value.func, ast.Name) \
+                and s.value.func.id in self.module_defs and self.depth < 3 and not s.value.keywords \
+                and (isinstance(s.targets[0], ast.Tuple) or self.straight_line(self.module_defs[s.value.func.id])):
+            inl = self.inline_statements(self.module_defs[s.value.func.id], s.value.args, s.targets[0])
+            if inl is not None:
+                self.depth += 1
+                try:
+                    return self.block(inl + rest, ind)
+                finally:
+                    self.depth -= 1
+        if isinstance(s, ast.FunctionDef) or (isinstance(s, ast.Assign) and isinstance(s.value, ast.Lambda)):
+            # a local function: translated only if the live path calls it (then the call fails to translate)
+            return self.block(rest, ind)
         if isinstance(s, ast.Assign):
             if len(s.targets) != 1 or not isinstance(s.targets[0], ast.Name):
                 raise Untranslatable("assignment target")
             name = s.targets[0].id
             src = self.is_identity(s.value)
-            if src is not None and not isinstance(s.value, ast.Name):
-                if src != name:
-                    raise Untranslatable("conversion into a different name")
+            if src is not None and (not isinstance(s.value, ast.Name) or src != name):
+                if src != name:                       # the converted collection under another name
+                    if src in self.vecs:
+                        self.vecs[name] = self.vecs[src]
+                        self.env.pop(name, None)
+                        return self.block(rest, ind)
+                    self.vecs.pop(name, None)
+                    self.env[name] = self.env[src]
+                    return f"{pad}let {name} := {src}\n" + self.block(rest, ind)
                 return self.block(rest, ind)          # modelled as the identity
             ext = self.opts.get("external", {})
-            if name in ext and isinstance(s.value, ast.Call) and dotted(s.value.func) in ("np.random.rand", "numpy.random.rand"):
-                self.env[name] = ext[name]            # uniform draws: an explicit parameter of the generated definition
-                self.externals.append((name, ext[name]))
+            if ext and isinstance(s.value, ast.Call) and dotted(s.value.func) in ("np.random.rand", "numpy.random.rand"):
+                et = list(ext.values())[0]
+                self.env[name] = et                    # uniform draws: an explicit parameter of the generated definition (whatever its name)
+                self.externals.append((name, et))
                 return self.block(rest, ind)
+            if isinstance(s.value, ast.Name) and s.value.id.startswith("tmp") and s.value.id in self.env and self.env[s.value.id] in ("set", "coll"):
+                self.env[name] = self.env[s.value.id]
+                return f"{pad}let {name} := {s.value.id}\n" + self.block(rest, ind)
             v, t = self.expr(s.value)
             if t == "vec":
                 if v[2] != "x":
-                    raise Untranslatable("vector-valued local variable that is not a selection")
+                    self.vecs[name] = v                # a named element-wise expression: substituted where it is used
+                    self.env.pop(name, None)
+                    return self.block(rest, ind)
+                self.vecs.pop(name, None)
                 self.env[name] = "vec"
                 return f"{pad}let {name} := {v[1]}\n" + self.block(rest, ind)
+            if t in ("set", "coll"):
+                self.env[name] = t
+                return f"{pad}let {name} := {v}\n" + self.block(rest, ind)
             if t == "const":
                 v, t = v[0], "rat"
             if t == "prop":
@@ -314,18 +440,19 @@ class Fn:
                 return self.block(rest, ind)          # `if type(A) != pd.Series: A = pd.Series(list(A))`: identity
             st = self.static_value(s.test)
             if st is not None:
-                if s.orelse:
-                    raise Untranslatable("if with else")
-                return self.block(list(s.body) + rest, ind) if st else self.block(rest, ind)
-            if s.orelse:
-                raise Untranslatable("if with else")
+                return self.block(list(s.body) + rest, ind) if st else self.block(list(s.orelse) + rest, ind)
             c, t = self.expr(s.test)
+            if t in ("set", "coll"):
+                c, t = f"(({c}).length ≠ 0)", "prop"
             if t != "prop":
                 raise Untranslatable("condition is not a comparison")
-            saved = dict(self.env)
-            body = self.block(list(s.body), ind + 1)
-            self.env = saved
-            return f"{pad}if {c} then\n{body}\n{pad}else\n" + self.block(rest, ind)
+            # each branch is followed by what follows the `if` (a branch that returns simply never reaches it)
+            saved = (dict(self.env), dict(self.vecs))
+            body = self.block(list(s.body) + rest, ind + 1)
+            self.env, self.vecs = dict(saved[0]), dict(saved[1])
+            other = self.block(list(s.orelse) + rest, ind)
+            self.env, self.vecs = saved
+            return f"{pad}if {c} then\n{body}\n{pad}else\n" + other
         if isinstance(s, ast.Raise):
             raise Untranslatable("a reachable raise")
         raise Untranslatable(f"statement {type(s).__name__}")
@@ -355,7 +482,7 @@ class Fn:
 
     def lean(self):
         body = self.block(list(self.f.body), 1)
-        ret = {"Rat": "Rat", "Nat": "Nat", None: "Rat", "List Rat": "List Rat"}[self.ret]
+        ret = {"Rat": "Rat", "Nat": "Nat", None: "Rat", "List Rat": "List Rat", "Prop": "Prop"}[self.ret]
         if self.has_nan:
             ret = "Option Rat"
         params = []
@@ -407,8 +534,9 @@ def gen_group(group):
         if name not in defs:
             raise Untranslatable(f"{path}: function {name} not found")
         try:
-            out += [f"/-- `{name}` of {path} (lines {defs[name].lineno}–{defs[name].end_lineno}) -/".replace(
-                f" (lines {defs[name].lineno}–{defs[name].end_lineno})", ""), Fn(defs[name], ptypes).lean(), ""]
+            fn_ = Fn(defs[name], ptypes)
+            fn_.module_defs = {k: v for k, v in defs.items() if k != name}
+            out += [f"/-- `{name}` of {path} -/", fn_.lean(), ""]
         except Untranslatable as e:
             raise Untranslatable(f"{path}:{name}: {e}") from None
     out += ["end Prs.Generated", ""]
@@ -430,7 +558,7 @@ def gen_real():
             raise Untranslatable(f"{path}: function {name} not found")
         try:
             out += [f"/-- `{name}` of {path}" + (f" with {opts['static']}" if opts.get("static") else "") + " -/",
-                    Fn(defs[name], ptypes, opts).lean(), ""]
+                    Fn(defs[name], ptypes, dict(opts, module_defs={k: v for k, v in defs.items() if k != name})).lean(), ""]
         except Untranslatable as e:
             raise Untranslatable(f"{path}:{name}: {e}") from None
     out += ["end", "end Prs.Generated", ""]
